@@ -69,6 +69,10 @@ def fill_case(rng, c, sim):
         c["spont"] = [s + [rng.choice([None, None, "label", "fn"])] for s in spont]
         c["induced"] = [s + [rng.choice([None, None, "label", "fn"])] for s in ind]
         w = [F(1, 4), F(1, 2), F(1), F(2), F(3)]
+        if rng.random() < 0.35:
+            # weight 0 is a weight: a node / edge on which a weighted transition is switched off (rate * weight = 0)
+            w = w + [F(0), F(0)]
+            c["zero_weights"] = True
         c["nodew"] = [str(rng.choice(w)) for _ in range(n)]
         c["edgew"] = [str(rng.choice(w)) for _ in c["edges"]]           # edge attribute (weight_label) and rate function, stored orientation
         c["edgew_rev"] = [str(rng.choice(w)) for _ in c["edges"]]       # rate function in the opposite orientation (may be asymmetric)
